@@ -70,13 +70,28 @@ class TlcResult:
                 "wall_s": round(self.wall, 2), "cached": self.cached}
 
 
+def _deps(module, seen):
+    path = os.path.join(SPEC, module + ".tla")
+    if module in seen or not os.path.exists(path):
+        return
+    seen.add(module)
+    txt = open(path).read()
+    for m in re.finditer(r"EXTENDS([^\n]*)", txt):
+        for name in m.group(1).split(","):
+            _deps(name.strip(), seen)
+    for m in re.finditer(r"INSTANCE\s+(\w+)", txt):
+        _deps(m.group(1), seen)
+
+
 def spec_hash(module, cfg_text, extra):
+    """Hash of the module, the modules it extends or instantiates, the configuration and options."""
     h = hashlib.sha256()
-    for fn in sorted(os.listdir(SPEC)):
-        if fn.endswith(".tla"):
-            with open(os.path.join(SPEC, fn), "rb") as f:
-                h.update(fn.encode())
-                h.update(f.read())
+    seen = set()
+    _deps(module, seen)
+    for name in sorted(seen):
+        with open(os.path.join(SPEC, name + ".tla"), "rb") as f:
+            h.update(name.encode())
+            h.update(f.read())
     h.update(module.encode())
     h.update(cfg_text.encode())
     h.update(repr(extra).encode())
